@@ -183,6 +183,9 @@ def _small_cue_variants(tier, seed, shard=(0, 1)):
         yield {"tracks": many, "style": {"track_extra": ['PERFORMER "Somebody with a long name"', "FLAGS DCP", "ISRC ABCDE1234567",
                                                          'SONGWRITER "Another long name here"', "REM x", "REM y"]}}
         yield {"tracks": many, "style": {"blank_lines": 3, "lead": "      ", "trail": "      "}}
+        # TRACK numbers are labels: the tracks are read in LISTING order whatever their numbers (restarting, descending, repeated)
+        for numbers in ([1, 2, 3, 1, 2], [5, 1, 2, 3, 4], [9, 8, 7], [2, 2, 2, 1]):
+            yield {"tracks": [{"number": n, "mode": "AUDIO", "title": f"T{k}", "indices": [[1, k, 0, 0]]} for k, n in enumerate(numbers)], "style": {}}
     k = 0
     for sheet in sheets:
         for combo in combos:
@@ -204,7 +207,7 @@ def _bc(c):
 
 CONCRETE["bounded:cue_cosmetics"] = {
     "build": _build_cue_variants, "small": _small_cue_variants, "oracle": _oracle_cue_variants, "shards": 4,
-    "bound": "3 canonical cue sheets (1..3 tracks, data+audio, with/without TITLE, one or two INDEX lines) x all 2048 combinations "
+    "bound": "sheets whose TRACK numbers restart / descend / repeat (listing order is the order); 3 canonical cue sheets (1..3 tracks, data+audio, with/without TITLE, one or two INDEX lines) x all 2048 combinations "
              "(thorough; 150 sampled quick) of: keyword case, leading/trailing blanks, blank lines, leading blank lines, indentation, CRLF, unknown "
              "lines before FILE, unknown lines after TRACK and after the INDEX lines, TITLE before/after INDEX; plus one unknown line inserted "
              "at a random admissible line position; parsed by the real parse_cue_sheet and compared with the canonical meaning",
